@@ -22,6 +22,14 @@ for d in sorted(glob.glob(os.path.join(VERIF, "seeded", pid + "-*"))):
         pass
 
 HINTS = {
+    "r5": """Aim for changes chosen by MECHANISM (pick two DIFFERENT mechanisms, and prefer sites that none of the earlier changes listed below touched):
+  (m) resource / shutdown / cleanup: Drop order, thread join, channel closing, a tracker or store dropped while results are outstanding, an iterator or result object dropped half-consumed;
+  (n) arithmetic: usize subtraction or `len() - 1` on a path that can be empty, casts (`as u64`, `as i64`, `as usize`, f64 -> f32) that truncate or wrap for unusual values, saturating vs wrapping vs checked arithmetic, integer division rounding, accumulated float error over long runs;
+  (o) ordering / comparison: `partial_cmp` fallbacks, sort stability (sort vs sort_unstable), sort key missing a component, min/max swapped for one operand order, dedup vs dedup_by_key, first vs last of equal elements;
+  (p) collection semantics: HashMap insert overwriting an entry, entry API vs get+insert, retain / drain / truncate / split_off boundaries off by one, VecDeque front/back, iterating while the collection changes, Option::take leaving None behind;
+  (q) copy / clone / default semantics: a field not carried over by a hand-written Clone / From / builder, a Default that differs from the documented default, a cached or derived field going stale, shallow sharing through Arc where a copy was intended;
+  (r) concurrency: lock scope narrowed or widened, read lock where the write lock is needed for a check-then-act, a value read before the lock and used after, send before the state update, a shared counter read twice, a condition variable signalled without holding the mutex.
+The change must still need something specific to manifest (unusual input, long or oddly shaped history, particular interleaving, rare option) - avoid changes that any ordinary use exposes at once.""",
     "r4": """Aim for changes of the following kinds (pick two DIFFERENT kinds, and prefer sites that none of the earlier changes listed below touched):
   (g) boundary conditions that are rarely hit: zero-length / exactly-full / first or last element, shard or worker count 1 versus > 1, max_idle_epochs = 0, history length 1, batch with one scene, a scene seen for the first time, empty detection list followed by a full one;
   (h) lifetime effects: behaviour after clear_wasted, after tracks were handed out by wasted(), after a scene was idle for a long time, after very many epochs, after a tracker was dropped and another created, usize / u64 / i64 conversions of ids, epochs or custom ids (negative, very large);
